@@ -41,7 +41,14 @@ pub fn gen_cfg(rng: &mut Rng) -> PCfg {
 
 pub fn gen_ctor(rng: &mut Rng) -> Ctor {
     let via = |rng: &mut Rng| match rng.below(5) {
-        0 | 1 => Via::FromRead,
+        0 => Via::FromRead,
+        1 => {
+            if rng.chance(1, 2) {
+                Via::FromRead
+            } else {
+                Via::Advanced
+            }
+        }
         2 => Via::Boxed,
         _ => Via::BufReader {
             cap: *rng.pick(&[1usize, 2, 3, 8, 64]),
@@ -189,7 +196,9 @@ fn note_source(st: &mut Stats, src: &SimSource, case: &ParseCase) -> (u64, u64) 
     st.add("fault.terminal_error", s.c.errors);
     st.add("source.calls", s.c.calls);
     st.steps += s.c.calls;
-    if case.ctor.uses_bufreader() {
+    if matches!(case.ctor, Ctor::Reader { via: Via::Advanced, .. }) {
+        st.hit("reach.parser_on_advanced_reader");
+    } else if case.ctor.uses_bufreader() {
         st.hit("fault.prefilled_bufreader");
     }
     if s.budget_exceeded {
@@ -324,8 +333,8 @@ pub fn shrink_case(case: &ParseCase) -> Vec<ParseCase> {
             }));
         }
     }
-    if case.src.steps.iter().any(|s| matches!(s, Step::Interrupted)) {
-        out.push(with(&|c| c.src.steps.retain(|s| !matches!(s, Step::Interrupted))));
+    if case.src.steps.iter().any(|s| matches!(s, Step::Interrupted | Step::Storm(_))) {
+        out.push(with(&|c| c.src.steps.retain(|s| !matches!(s, Step::Interrupted | Step::Storm(_)))));
     }
     // a single cut at position s
     if case.src.rank() > 1 {
